@@ -150,11 +150,11 @@ theorem write_head (e : Env) (T : Term) (c y k : Nat) (hk : k = 1 ∨ k = 2) (nc
 theorem outputChar_head (e : Env) (T : Term) (c y k : Nat) (hk : k = 1 ∨ k = 2) (last : Option Nat)
     (nc : Cell) (g : Good e T ⟨c, y⟩ last) (hfit : c + k ≤ e.w) (hh : HeadK cw k nc)
     (hleft : (T.cells y c).ch ≠ []) :
-    Good e (exec cw T (outputChar e.attrsOf last nc).1) ⟨c + k, y⟩ (outputChar e.attrsOf last nc).2 ∧
-    Frame T (exec cw T (outputChar e.attrsOf last nc).1) ∧
-    (∀ y' x', (exec cw T (outputChar e.attrsOf last nc).1).cells y' x' =
+    Good e (exec cw T (outputChar e last nc).1) ⟨c + k, y⟩ (outputChar e last nc).2 ∧
+    Frame T (exec cw T (outputChar e last nc).1) ∧
+    (∀ y' x', (exec cw T (outputChar e last nc).1).cells y' x' =
       headCells e.attrsOf y c k nc T.cells e.w y' x') ∧
-    (∀ p ∈ (exec cw T (outputChar e.attrsOf last nc).1).log,
+    (∀ p ∈ (exec cw T (outputChar e last nc).1).log,
       p ∈ T.log ∨ (p.1 = y ∧ c ≤ p.2 ∧ p.2 < c + k)) := by
   unfold outputChar
   by_cases h1 : last = some nc.style
@@ -162,12 +162,12 @@ theorem outputChar_head (e : Env) (T : Term) (c y k : Nat) (hk : k = 1 ∨ k = 2
     have hs : T.sgr = e.attrsOf nc.style := by have := g.sgr; rw [h1] at this; exact this
     exact write_head cw e T c y k hk nc g.geo hfit hh hleft hs
   · simp only [h1, if_false]
-    by_cases h2 : needAttrs e.attrsOf last (e.attrsOf nc.style) = true
+    by_cases h2 : needAttrs e.rawOf last (e.rawOf nc.style) = true
     · simp only [h2, if_true, List.cons_append, List.nil_append, exec_cons, exec_nil]
-      have g' : Geo e (execCmd cw T (.setAttrs (e.attrsOf nc.style))) ⟨c, y⟩ :=
+      have g' : Geo e (execCmd cw T (.setAttrs (e.rawOf nc.style) e.depth (e.attrsOf nc.style))) ⟨c, y⟩ :=
         ⟨g.geo.w, g.geo.wpos, g.geo.row, g.geo.col, g.geo.rowlt, g.geo.aw⟩
       obtain ⟨a1, a2, a3, a4⟩ :=
-        write_head cw e (execCmd cw T (.setAttrs (e.attrsOf nc.style))) c y k hk nc g' hfit hh hleft rfl
+        write_head cw e (execCmd cw T (.setAttrs (e.rawOf nc.style) e.depth (e.attrsOf nc.style))) c y k hk nc g' hfit hh hleft rfl
       exact ⟨a1, ⟨a2.h, a2.top, a2.scrolled, a2.oob, a2.visible⟩, a3, a4⟩
     · simp only [h2, Bool.false_eq_true, if_false, List.nil_append, exec_cons, exec_nil]
       have hs : T.sgr = e.attrsOf nc.style := by
@@ -177,7 +177,7 @@ theorem outputChar_head (e : Env) (T : Term) (c y k : Nat) (hk : k = 1 ∨ k = 2
           simp [needAttrs] at h2
           have := g.sgr
           simp only [SgrOk] at this
-          rw [this, h2.2]
+          rw [this]; simp only [Env.attrsOf, h2.2]
       exact write_head cw e T c y k hk nc g.geo hfit hh hleft hs
 
 /-- structure of a row with wide characters: every cell is a narrow head, a wide head, or the empty
@@ -305,7 +305,7 @@ theorem colLoopW_spec (e : Env) (s : Screen) (y : Nat) (newRow prevRow : List Ce
         have hleft : ((exec cw T m.1).cells y c).ch ≠ [] := by rw [m3]; exact (inv.here (by omega)).1
         obtain ⟨o1, o2, o3, o4⟩ :=
           outputChar_head cw e (exec cw T m.1) c y k hk m.2 (cellAt newRow c) m1 (by omega) hh hleft
-        generalize outputChar e.attrsOf m.2 (cellAt newRow c) = o at *
+        generalize outputChar e m.2 (cellAt newRow c) = o at *
         have hy3 : y < (exec cw (exec cw T m.1) o.1).h := by rw [o2.h, m2.h]; exact hy
         have kpos : 1 ≤ k := by omega
         -- the invariant at the next stride position
@@ -453,13 +453,13 @@ theorem paint_ch_ne_nil (a : Nat → Attrs) (row : List Cell) (hw : WRow cw row)
   · exact absurd h1 h
 
 /-- a cell that `get_max_column_index` does not count is a plain blank -/
-theorem paint_not_counted (a : Nat → Attrs) (row : List Cell) (x : Nat)
-    (h : Cell.counted a (cellAt row x) = false) : (paint a row x).norm = TCell.blank := by
+theorem paint_not_counted (e : Env) (hdef : EnvOk e) (row : List Cell) (x : Nat)
+    (h : Cell.counted e.rawOf (cellAt row x) = false) : (paint e.attrsOf row x).norm = TCell.blank := by
   have h' := h
   simp only [Cell.counted, Bool.or_eq_false_iff, bne_eq_false_iff_eq] at h'
   have : (cellAt row x).txt ≠ [] := by rw [h'.1]; simp
   simp only [paint, this, if_false]
-  exact norm_of_not_counted a _ h
+  exact norm_of_not_counted_env e hdef _ h
 
 /-- with no wide head straddling the right edge, every visited cell ends inside the compared part of the
     row (the continuation behind a wide head is counted by `get_max_column_index`) -/
@@ -480,11 +480,11 @@ theorem stride_end (e : Env) (row : List Cell) (hw : WRow cw row)
       · exfalso
         have : cellAt row (c + 1) = Cell.dflt := by unfold cellAt; exact getD_ge _ _ _ (by omega)
         rw [this] at hcont; simp [ContCell, Cell.dflt] at hcont
-    have hcnt : Cell.counted e.attrsOf (row[c + 1]) = true := by
+    have hcnt : Cell.counted e.rawOf (row[c + 1]) = true := by
       have : cellAt row (c + 1) = row[c + 1] := by unfold cellAt; exact getD_lt _ _ _ hin
       rw [this] at hcont
       simp [Cell.counted, hcont.1]
-    have := trimLen_ge (Cell.counted e.attrsOf) row (c + 1) hin hcnt
+    have := trimLen_ge (Cell.counted e.rawOf) row (c + 1) hin hcnt
     unfold lineLen maxCol; omega
   · rw [h.2]; omega
 
@@ -497,7 +497,7 @@ theorem eraseFrom_eq_local (t : Term) (down : Bool) (h : (t.cells t.row t.col).c
   simp only [hl]
 
 theorem rowStepW_spec (e : Env) (s prev : Screen) (y : Nat) (pos : Point) (last : Option Nat) (T : Term)
-    (hdef : (e.attrsOf 1).hasStyle = false)
+    (hdef : EnvOk e)
     (hwn : WRow cw (s.row y)) (hwp : WRow cw (prev.row y))
     (hns : ∀ c, c < e.w → HeadK cw 2 (cellAt (s.row y) c) → c + 2 ≤ e.w)
     (hsh : ∀ x, x < e.w → (T.cells y x).norm = (paint e.attrsOf (prev.row y) x).norm)
@@ -526,8 +526,8 @@ theorem rowStepW_spec (e : Env) (s prev : Screen) (y : Nat) (pos : Point) (last 
   -- cells of the new row that are not compared are plain blanks
   have hnewblank : ∀ x, n ≤ x → x < e.w → (paint e.attrsOf (s.row y) x).norm = TCell.blank := by
     intro x hx hxw
-    apply paint_not_counted
-    apply not_counted _ hdef
+    apply paint_not_counted e hdef
+    apply not_counted _ hdef.dflt
     rw [← hn] at hx; unfold lineLen at hx; omega
   by_cases ht : n < lineLen e (prev.row y)
   · simp only [ht, if_true]
@@ -570,8 +570,8 @@ theorem rowStepW_spec (e : Env) (s prev : Screen) (y : Nat) (pos : Point) (last 
     · exact c3.left x hxn
     · -- the previous row is blank from `n` on
       have hprevblank : (paint e.attrsOf (prev.row y) x).norm = TCell.blank := by
-        apply paint_not_counted
-        apply not_counted _ hdef
+        apply paint_not_counted e hdef
+        apply not_counted _ hdef.dflt
         unfold lineLen at ht; omega
       rw [hnewblank x (by omega) hx, ← hprevblank, ← hsh x hx]
       by_cases hxe : x = n
@@ -595,7 +595,7 @@ def WRows (s : Screen) : Prop := ∀ y, WRow cw (s.row y)
 def NoStraddle (e : Env) (s : Screen) : Prop :=
   ∀ y c, c < e.w → HeadK cw 2 (cellAt (s.row y) c) → c + 2 ≤ e.w
 
-theorem rowLoopW_spec (e : Env) (s prev : Screen) (hdef : (e.attrsOf 1).hasStyle = false)
+theorem rowLoopW_spec (e : Env) (s prev : Screen) (hdef : EnvOk e)
     (hwn : WRows cw s) (hwp : WRows cw prev) (hns : NoStraddle cw e s) :
     ∀ (k y0 : Nat) (pos : Point) (last : Option Nat) (T : Term),
       Good e T pos last → y0 + k ≤ T.h →
@@ -656,19 +656,20 @@ theorem wrow_nil (h1 : cw ' ' = 1) : WRow cw [] := by
   · intro h; rw [hd] at h; exact absurd h.2 (by simp [Cell.dflt])
   · intro h; rw [hd] at h; exact absurd h.1 (by simp [Cell.dflt])
 
-theorem showsW_empty_of_blank (e : Env) (T : Term) (hdef : (e.attrsOf 1).hasStyle = false)
+theorem showsW_empty_of_blank (e : Env) (T : Term) (hdef : EnvOk e)
     (h : ∀ y x, T.cells y x = TCell.blank) : ShowsW e T Screen.empty := by
   intro y x _ _
   rw [h y x, blank_norm]
   have : Screen.empty.row y = [] := by simp [Screen.row, Screen.empty, List.getD]
   rw [this, paint_nil]
   symm
-  apply norm_of_not_counted
-  simp [Cell.counted, Cell.dflt, hdef]
+  apply norm_of_not_counted_env e hdef
+  have := hdef.dflt
+  simp [Cell.counted, Cell.dflt, this]
 
 /-- the row loop and the tail of the differ for screens with wide characters -/
 theorem coreW (e : Env) (s pscr : Screen) (isDone : Bool) (T1 : Term) (p1 : Point) (l1 : Option Nat)
-    (hdef : (e.attrsOf 1).hasStyle = false)
+    (hdef : EnvOk e)
     (hwn : WRows cw s) (hwp : WRows cw pscr) (hns : NoStraddle cw e s)
     (wfs : WF s) (wfp : WF pscr)
     (g : Good e T1 p1 l1) (hsh : ShowsW e T1 pscr)
@@ -748,7 +749,7 @@ theorem coreW (e : Env) (s pscr : Screen) (isDone : Bool) (T1 : Term) (p1 : Poin
 structure DiffOkW (e : Env) (s : Screen) (pos : Point) (prev : Option Screen) (last : Option Nat)
     (isDone : Bool) (pw : Nat) (T : Term) : Prop where
   space : cw ' ' = 1
-  hdef : (e.attrsOf 1).hasStyle = false
+  hdef : EnvOk e
   /-- every cell is one character, 1 or 2 columns wide, wide characters are followed by the empty
       continuation cell and do not straddle the right edge -/
   rows : WRows cw s
@@ -959,8 +960,10 @@ theorem nostraddle_of_check (e : Env) (s : Screen)
 def exW1 : Screen := ⟨[[⟨['a'], 0, 1⟩, ⟨['世'], 0, 2⟩, ⟨[], 0, 0⟩, ⟨['b'], 2, 1⟩]], [], 1, ⟨4, 0⟩, true⟩
 def exW2 : Screen := ⟨[[⟨['世'], 0, 2⟩, ⟨[], 0, 0⟩, ⟨['a'], 0, 1⟩, ⟨['b'], 2, 1⟩]], [], 1, ⟨4, 0⟩, true⟩
 
+theorem exEnvWOk : EnvOk exEnvW := ⟨rfl, (exEnvOk 0 8).enc⟩
+
 theorem exW1_ok : DiffOkW cwx exEnvW exW1 ⟨0, 0⟩ none none false 0 exTW :=
-  ⟨rfl, rfl, wrows_of_check cwx rfl _ (by decide), nostraddle_of_check cwx _ _ (by decide),
+  ⟨rfl, exEnvWOk, wrows_of_check cwx rfl _ (by decide), nostraddle_of_check cwx _ _ (by decide),
    by unfold WF; decide, ⟨rfl, by decide, rfl, rfl, by decide, (fun _ h => by cases h), rfl⟩,
    (fun ps h => by cases h), by decide, by decide, by decide⟩
 
@@ -970,7 +973,7 @@ example : RenderedW exEnvW
       (diff exEnvW exW2 ⟨4, 0⟩ (some exW1) none false 6).cmds) exW2 := by
   have r1 := diff_correct_wide cwx exEnvW exW1 ⟨0, 0⟩ none none 0 exTW exW1_ok
   apply diff_correct_wide
-  refine ⟨rfl, rfl, wrows_of_check cwx rfl _ (by decide), nostraddle_of_check cwx _ _ (by decide),
+  refine ⟨rfl, exEnvWOk, wrows_of_check cwx rfl _ (by decide), nostraddle_of_check cwx _ _ (by decide),
     by unfold WF; decide, ⟨r1.w, by decide, r1.row, by rw [r1.col]; decide, by rw [r1.row]; decide, ?_, r1.sgr⟩,
     ?_, by decide, by decide, by decide⟩
   · intro h; cases h
@@ -1015,9 +1018,9 @@ theorem fitScreen_of_wrows (e : Env) (s : Screen) (hw : WRows cw s) (hns : NoStr
 
 /-- per-operation side conditions: well-formed rows with wide characters -/
 def OpOkWW (e : Env) (R : RState) (T : Term) : ROp → Prop
-  | .render s _ _ _ => WRows cw s ∧ NoStraddle cw e s ∧ WF s ∧ s.cursor.x < e.w ∧ s.cursor.y < T.h ∧
+  | .render s _ _ _ _ => WRows cw s ∧ NoStraddle cw e s ∧ WF s ∧ s.cursor.x < e.w ∧ s.cursor.y < T.h ∧
       min (max s.height (prevHeight R.lastScreen)) e.h ≤ T.h
-  | .finish s _ _ _ => WRows cw s ∧ NoStraddle cw e s ∧ WF s ∧ min s.height e.h < T.h ∧
+  | .finish s _ _ _ _ => WRows cw s ∧ NoStraddle cw e s ∧ WF s ∧ min s.height e.h < T.h ∧
       min (max s.height (prevHeight R.lastScreen)) e.h ≤ T.h
   | .erase _ => True
   | .clear => True
@@ -1029,53 +1032,53 @@ def RunOkWW (e : Env) : RState → Term → List ROp → Prop
 theorem opOkW_of_WW (e : Env) (R : RState) (T : Term) (op : ROp) (h : OpOkWW cw e R T op) :
     OpOkW cw e R T op := by
   cases op with
-  | render s m k sh => exact ⟨fitScreen_of_wrows cw e s h.1 h.2.1, h.2.2.2.1, h.2.2.2.2.1, h.2.2.2.2.2⟩
-  | finish s m k sh => exact ⟨fitScreen_of_wrows cw e s h.1 h.2.1, h.2.2.2.1, h.2.2.2.2⟩
+  | render s m k d sh => exact ⟨fitScreen_of_wrows cw (envFor e k d) s h.1 h.2.1, h.2.2.2.1, h.2.2.2.2.1, h.2.2.2.2.2⟩
+  | finish s m k d sh => exact ⟨fitScreen_of_wrows cw (envFor e k d) s h.1 h.2.1, h.2.2.2.1, h.2.2.2.2⟩
   | erase la => trivial
   | clear => trivial
 
 /-- the renderer invariant for screens with wide characters -/
 structure RInvW (e : Env) (R : RState) (T : Term) : Prop where
   geo : RGeo e R T
-  shown : ∀ ps, R.lastScreen = some ps →
-    ShowsW e T ps ∧ WRows cw ps ∧ WF ps ∧ R.lastSize = some (e.h, e.w)
+  shown : ∀ ps, R.lastScreen = some ps → ∃ k d, R.styleKey = some k ∧ R.lastDepth = some d ∧
+    ShowsW (envFor e k d) T ps ∧ WRows cw ps ∧ WF ps ∧ R.lastSize = some (e.h, e.w)
 
-theorem stepR_invW (e : Env) (h1 : cw ' ' = 1) (hdef : (e.attrsOf 1).hasStyle = false)
+theorem stepR_invW (e : Env) (h1 : cw ' ' = 1) (hdef : ∀ k d, EnvOk (envFor e k d))
     (R : RState) (T : Term) (op : ROp) (inv : RInvW cw e R T) (ok : OpOkWW cw e R T op) :
     RInvW cw e (stepR cw e R T op).1 (stepR cw e R T op).2 ∧
     (stepR cw e R T op).2.scrolled = T.scrolled ∧ (stepR cw e R T op).2.oob = T.oob := by
   obtain ⟨g1, g2, g3⟩ := stepR_geo cw e R T op inv.geo (opOkW_of_WW cw e R T op ok)
   refine ⟨⟨g1, ?_⟩, g2, g3⟩
   cases op with
-  | render s m k sh =>
+  | render s m k d sh =>
     obtain ⟨hwn, hns, wfs, hcx, hcy, hfit⟩ := ok
-    have dok : DiffOkW cw e s R.pos (R.prevFor e k) R.lastStyle false R.prevWidth T := by
-      refine ⟨h1, hdef, hwn, hns, wfs, pre_of_rgeo e R T k inv.geo, ?_, ?_,
-        (by have := inv.geo.tot; omega), by simpa using hcy⟩
+    have dok : DiffOkW cw (envFor e k d) s R.pos (R.prevFor (envFor e k d) k) R.lastStyle false R.prevWidth T := by
+      refine ⟨h1, hdef k d, hwn, hns, wfs, pre_of_rgeo (envFor e k d) R T k (rgeo_env e R T k d inv.geo), ?_, ?_,
+        (by have := inv.geo.tot; simp only [envFor_h]; omega), by simpa using hcy⟩
       · intro ps hps _
-        rcases prevFor_cases e R k with h | h
-        · rw [h] at hps; cases hps
-        · rw [h] at hps
-          obtain ⟨a, b, c, _⟩ := inv.shown ps hps
-          exact ⟨a, b, c⟩
-      · have := prevHeight_prevFor e R k; omega
-    have rd := diff_correct_wide cw e s R.pos (R.prevFor e k) R.lastStyle R.prevWidth T dok
-    obtain ⟨a, b, ha, hb, hc⟩ := render_cmds e R s false m k sh
-    have hT : (stepR cw e R T (.render s m k sh)).2 =
-        exec cw T (diff e s R.pos (R.prevFor e k) R.lastStyle false R.prevWidth).cmds := by
+        obtain ⟨hl, hk, hd⟩ := prevFor_some (envFor e k d) R k ps hps
+        obtain ⟨k', d', hk', hd', a, b, c, _⟩ := inv.shown ps hl
+        rw [hk] at hk'; rw [hd] at hd'
+        cases hk'; cases hd'
+        exact ⟨a, b, c⟩
+      · have := prevHeight_prevFor (envFor e k d) R k; simp only [envFor_h]; omega
+    have rd := diff_correct_wide cw (envFor e k d) s R.pos (R.prevFor (envFor e k d) k) R.lastStyle R.prevWidth T dok
+    obtain ⟨a, b, ha, hb, hc⟩ := render_cmds (envFor e k d) R s false m k sh
+    have hT : (stepR cw e R T (.render s m k d sh)).2 =
+        exec cw T (diff (envFor e k d) s R.pos (R.prevFor (envFor e k d) k) R.lastStyle false R.prevWidth).cmds := by
       simp only [stepR, hc, Bool.false_eq_true, if_false, List.append_nil]
       rw [exec_append, exec_inert cw T a ha, exec_append, exec_inert cw _ b hb]
-    have hR : (stepR cw e R T (.render s m k sh)).1 =
-        R.rendered e s m k sh (diff e s R.pos (R.prevFor e k) R.lastStyle false R.prevWidth) := by
+    have hR : (stepR cw e R T (.render s m k d sh)).1 =
+        R.rendered (envFor e k d) s m k sh (diff (envFor e k d) s R.pos (R.prevFor (envFor e k d) k) R.lastStyle false R.prevWidth) := by
       simp [stepR, RState.render]
     rw [hT, hR]
     intro ps hps
     simp only [RState.rendered, Option.some.injEq] at hps
     subst hps
-    exact ⟨rd.shows, hwn, wfs, rfl⟩
-  | finish s m k sh =>
-    have hR : (stepR cw e R T (.finish s m k sh)).1 =
-        ((R.rendered e s m k sh (diff e s R.pos (R.prevFor e k) R.lastStyle true R.prevWidth)).reset
+    exact ⟨k, d, rfl, rfl, rd.shows, hwn, wfs, rfl⟩
+  | finish s m k d sh =>
+    have hR : (stepR cw e R T (.finish s m k d sh)).1 =
+        ((R.rendered (envFor e k d) s m k sh (diff (envFor e k d) s R.pos (R.prevFor (envFor e k d) k) R.lastStyle true R.prevWidth)).reset
           false true).1 := by
       simp [stepR, RState.render]
     rw [hR]
@@ -1096,7 +1099,7 @@ theorem stepR_invW (e : Env) (h1 : cw ' ' = 1) (hdef : (e.attrsOf 1).hasStyle = 
     done-renders, erases and clears the terminal shows `_last_screen` (wide characters on their two
     columns), the cursor is at `_cursor_pos`, attributes are reset; nothing scrolls and no cursor motion
     passes the margins. -/
-theorem render_seq_wide (e : Env) (h1 : cw ' ' = 1) (hdef : (e.attrsOf 1).hasStyle = false) :
+theorem render_seq_wide (e : Env) (h1 : cw ' ' = 1) (hdef : ∀ k d, EnvOk (envFor e k d)) :
     ∀ (ops : List ROp) (R : RState) (T : Term), RInvW cw e R T → RunOkWW cw e R T ops →
       RInvW cw e (runR cw e R T ops).1 (runR cw e R T ops).2 ∧
       (runR cw e R T ops).2.scrolled = T.scrolled ∧ (runR cw e R T ops).2.oob = T.oob := by
@@ -1124,48 +1127,54 @@ theorem runOkWW_append (e : Env) : ∀ (a b : List ROp) (R : RState) (T : Term),
 /-- **incremental_eq_scratch_wide** — after any sequence of operations ending with a render of `s` (screens
     with wide characters), the owned rows are visibly identical to those of a terminal of the same geometry
     with arbitrary previous contents on which `s` is drawn from scratch. -/
-theorem incremental_eq_scratch_wide (e : Env) (h1 : cw ' ' = 1) (hdef : (e.attrsOf 1).hasStyle = false)
-    (ops : List ROp) (R : RState) (T : Term) (s : Screen) (m : Bool) (k sh : Nat)
-    (inv : RInvW cw e R T) (ok : RunOkWW cw e R T (ops ++ [.render s m k sh]))
+theorem incremental_eq_scratch_wide (e : Env) (h1 : cw ' ' = 1) (hdef : ∀ k d, EnvOk (envFor e k d))
+    (ops : List ROp) (R : RState) (T : Term) (s : Screen) (m : Bool) (k d sh : Nat)
+    (inv : RInvW cw e R T) (ok : RunOkWW cw e R T (ops ++ [.render s m k d sh]))
     (junk : Nat → Nat → TCell) :
-    ∀ y x, y < (runR cw e R T (ops ++ [.render s m k sh])).2.h → x < e.w →
-      ((runR cw e R T (ops ++ [.render s m k sh])).2.cells y x).norm =
-      ((exec cw (Term.fresh e.w (runR cw e R T (ops ++ [.render s m k sh])).2.h 0 junk)
-          (diff e s ⟨0, 0⟩ none none false 0).cmds).cells y x).norm := by
+    ∀ y x, y < (runR cw e R T (ops ++ [.render s m k d sh])).2.h → x < e.w →
+      ((runR cw e R T (ops ++ [.render s m k d sh])).2.cells y x).norm =
+      ((exec cw (Term.fresh e.w (runR cw e R T (ops ++ [.render s m k d sh])).2.h 0 junk)
+          (diff (envFor e k d) s ⟨0, 0⟩ none none false 0).cmds).cells y x).norm := by
   obtain ⟨o1, o2⟩ := runOkWW_append cw e ops _ R T ok
   obtain ⟨invF, _, _⟩ := render_seq_wide cw e h1 hdef _ R T inv ok
   obtain ⟨inv', _, _⟩ := render_seq_wide cw e h1 hdef ops R T inv o1
   obtain ⟨hwn, hns, wfs, hcx, hcy, hfit⟩ := o2.1
   -- the final terminal shows `s`
-  have hlast : (runR cw e R T (ops ++ [.render s m k sh])).1.lastScreen = some s := by
+  have hlast : (runR cw e R T (ops ++ [.render s m k d sh])).1.lastScreen = some s := by
     rw [runR_append]
     simp [runR, stepR, RState.render, RState.rendered]
-  obtain ⟨shF, _, _, _⟩ := invF.shown s hlast
-  -- geometry of the last step
-  have hh : (runR cw e R T (ops ++ [.render s m k sh])).2.h = (runR cw e R T ops).2.h := by
+  have hkd : (runR cw e R T (ops ++ [.render s m k d sh])).1.styleKey = some k ∧
+      (runR cw e R T (ops ++ [.render s m k d sh])).1.lastDepth = some d := by
     rw [runR_append]
-    obtain ⟨a, b, ha, hb, hc⟩ := render_cmds e (runR cw e R T ops).1 s false m k sh
-    show (exec cw _ ((runR cw e R T ops).1.render e s false m k sh).2).h = _
+    simp [runR, stepR, RState.render, RState.rendered, envFor]
+  obtain ⟨kF, dF, hkF, hdF, shF, _, _, _⟩ := invF.shown s hlast
+  rw [hkd.1] at hkF; rw [hkd.2] at hdF
+  cases hkF; cases hdF
+  -- geometry of the last step
+  have hh : (runR cw e R T (ops ++ [.render s m k d sh])).2.h = (runR cw e R T ops).2.h := by
+    rw [runR_append]
+    obtain ⟨a, b, ha, hb, hc⟩ := render_cmds (envFor e k d) (runR cw e R T ops).1 s false m k sh
+    show (exec cw _ ((runR cw e R T ops).1.render (envFor e k d) s false m k sh).2).h = _
     rw [hc]
     simp only [Bool.false_eq_true, if_false, List.append_nil]
     rw [exec_append, exec_inert cw _ a ha, exec_append, exec_inert cw _ b hb]
-    have pre := pre_of_rgeo e (runR cw e R T ops).1 (runR cw e R T ops).2 k inv'.geo
-    have := prevHeight_prevFor e (runR cw e R T ops).1 k
-    exact (diff_geo cw e s _ _ _ false _ _ (fitScreen_of_wrows cw e s hwn hns) pre (by omega)
+    have pre := pre_of_rgeo (envFor e k d) (runR cw e R T ops).1 (runR cw e R T ops).2 k (rgeo_env e _ _ k d inv'.geo)
+    have := prevHeight_prevFor (envFor e k d) (runR cw e R T ops).1 k
+    exact (diff_geo cw (envFor e k d) s _ _ _ false _ _ (fitScreen_of_wrows cw (envFor e k d) s hwn hns) pre (by simp only [envFor_h]; omega)
       (by simpa using hcy)).2.2.2.2.2.2.2.h
-  generalize (runR cw e R T (ops ++ [.render s m k sh])).2 = Ti at *
-  have dok0 : DiffOkW cw e s ⟨0, 0⟩ none none false 0 (Term.fresh e.w Ti.h 0 junk) := by
-    refine ⟨h1, hdef, hwn, hns, wfs, ⟨rfl, invF.geo.wpos, rfl, by simp [Term.fresh], ?_, ?_, rfl⟩, ?_, ?_, ?_, ?_⟩
+  generalize (runR cw e R T (ops ++ [.render s m k d sh])).2 = Ti at *
+  have dok0 : DiffOkW cw (envFor e k d) s ⟨0, 0⟩ none none false 0 (Term.fresh e.w Ti.h 0 junk) := by
+    refine ⟨h1, hdef k d, hwn, hns, wfs, ⟨rfl, invF.geo.wpos, rfl, by simp [Term.fresh], ?_, ?_, rfl⟩, ?_, ?_, ?_, ?_⟩
     · have := invF.geo.rowlt; simp only [Term.fresh]; omega
     · intro _ h; cases h
     · intro ps h; cases h
-    · simp only [Term.fresh, prevHeight]; rw [hh]
+    · simp only [Term.fresh, prevHeight, envFor_h]; rw [hh]
       have : prevHeight (runR cw e R T ops).1.lastScreen ≥ 0 := Nat.zero_le _
       omega
-    · simp only [Term.fresh]; have := invF.geo.tot; omega
+    · simp only [Term.fresh, envFor_h]; have := invF.geo.tot; omega
     · simp only [Term.fresh, Bool.false_eq_true, if_false]; rw [hh]; exact hcy
-  have rs := diff_correct_wide cw e s ⟨0, 0⟩ none none 0 _ dok0
-  have hsame := (diff_masterW cw e s ⟨0, 0⟩ none none false 0 _ dok0).2.2.2.2.2.2.2.2
+  have rs := diff_correct_wide cw (envFor e k d) s ⟨0, 0⟩ none none 0 _ dok0
+  have hsame := (diff_masterW cw (envFor e k d) s ⟨0, 0⟩ none none false 0 _ dok0).2.2.2.2.2.2.2.2
   intro y x hy hx
   rw [shF y x hy hx, rs.shows y x (by rw [hsame.h]; exact hy) hx]
 end Ptk.C06
